@@ -69,6 +69,12 @@ func inheritNS(n *xt.Node, scope string) {
 	}
 	if n.Name.Space == "" {
 		n.Name.Space = scope
+		// an explicit declaration on the element itself wins
+		for _, a := range n.Attr {
+			if a.Name.Space == "" && a.Name.Local == "xmlns" {
+				n.Name.Space = a.Value
+			}
+		}
 	}
 	for _, c := range n.Children {
 		inheritNS(c, n.Name.Space)
